@@ -31,9 +31,14 @@ def design(rings, pd=1.20, hd=30.0, ducts=1, oftf=0.060, duct_t=0.0025,
     ducts: number of concentric ducts (1..3)."""
     ftf = []
     o = oftf
+    # wall / bypass thickness may be given per duct, listed from the inside out
+    ts = list(duct_t) if isinstance(duct_t, (list, tuple)) else [duct_t] * ducts
+    bs = list(byp_t) if isinstance(byp_t, (list, tuple)) else [byp_t] * max(ducts - 1, 1)
     for d in range(ducts):
-        ftf = [o - 2 * duct_t, o] + ftf
-        o = o - 2 * duct_t - 2 * byp_t
+        t = ts[ducts - 1 - d]
+        ftf = [o - 2 * t, o] + ftf
+        if d < ducts - 1:
+            o = o - 2 * t - 2 * bs[ducts - 2 - d]
     iftf = ftf[0]
     wfrac = 0.95 if wire else 0.0     # wire diameter as share of pin gap
     clr = {'tight': 0.0, 'loose': 0.35, 'mid': 0.12}[clearance]
